@@ -150,6 +150,88 @@ func init() {
 		outside: "capacities further than 3 above the current length (behave as far from the boundary); stacks longer than the bound",
 		assumptions: []string{"pre-state satisfies Inv; capacity field c means user capacity c-1"},
 	})
+
+	register(&property{
+		id: "C18",
+		gen: func(tier string, seed int) []symx.CaseSpec {
+			var out []symx.CaseSpec
+			out = append(out, cs("VH_C18_Bits", 1, 1, 2), cs("VH_C18_Bits", 2, 0, 1), cs("VH_C18_CondBits", 1, 1), cs("VH_C18_CondBits", 2, 1))
+			if tier == "thorough" {
+				out = append(out, cs("VH_C18_Bits", 2, 1, 2), cs("VH_C18_Bits", 3, 0, 0), cs("VH_C18_CondBits", 3, 1))
+			}
+			for target := 0; target <= 1; target++ {
+				for unset := 0; unset <= 1; unset++ {
+					for nargs := 1; nargs <= q(tier, 2, 3); nargs++ {
+						out = append(out, cs("VH_C18_Log", nargs, target, unset))
+					}
+				}
+				out = append(out, cs("VH_C18_Encap", target))
+			}
+			for w := 0; w <= 3; w++ {
+				out = append(out, cs("VH_C18_LogText", w))
+				for l := 0; l <= q(tier, 2, 3); l++ {
+					out = append(out, cs("VH_C18_Text", w, l))
+				}
+			}
+			out = append(out, cs("VH_C18_FifoAux"))
+			return out
+		},
+		boundsText: map[string]string{
+			"quick":    "option word: all 2^8 settable-bit states (solver variable) x sequences of 1-2 {set,clear,toggle} calls over 8 stack / 4 condition setters incl. deprecated spellings; log-level mask all 2^16 values x 1-2 arguments (LogLevel(v), int v, names; v any 16-bit value); ID/category/delimiter/symbol: every ASCII string of 0-2 bytes; encapsulation characters: every byte",
+			"thorough": "as quick with sequences of 3 calls, 3 log-level arguments, strings of 0-3 bytes",
+		},
+		outside: "texts longer than the bound and non-ASCII texts reaching case mapping (SetID lower-cases its argument); ints outside [0,65535] and unknown names as log levels (statement silent); the _random/_addr ID keywords (environment dependent)",
+		assumptions: []string{"UnsetLogLevel(all) is expected to clear the mask, as the doc comment of logLevels.unshift states"},
+	})
+
+	register(&property{
+		id: "C13",
+		gen: func(tier string, seed int) []symx.CaseSpec {
+			var out []symx.CaseSpec
+			for n := 0; n <= q(tier, 2, 3); n++ {
+				for m := 0; m <= q(tier, 2, 3); m++ {
+					for toggle := 0; toggle <= 1; toggle++ {
+						out = append(out, cs("VH_C13_Push", n, m, toggle, 0))
+						if n > 0 {
+							out = append(out, cs("VH_C13_Push", n, m, toggle, 1))
+						}
+					}
+				}
+			}
+			for form := 0; form <= 4; form++ {
+				out = append(out, cs("VH_C13_Cond", form, 0), cs("VH_C13_Cond", form, 1))
+			}
+			return out
+		},
+		boundsText: map[string]string{
+			"quick":    "existing length<=2, push batch<=2 with every mix of {primitive, nil, Stack, alias, alias with String, pointer to alias, Condition, int}; no-nesting bit and the other option bits: all values; optional SetNoNesting(b) with b symbolic; Condition side: all five wrappings of the offered stack x text/stack initial expression",
+			"thorough": "as quick with existing length<=3 and batches<=3",
+		},
+		outside: "batches longer than the bound; push policies (C14); nil pointers to aliases (C08)",
+	})
+
+	register(&property{
+		id: "C15",
+		gen: func(tier string, seed int) []symx.CaseSpec {
+			var out []symx.CaseSpec
+			for ns := 0; ns <= q(tier, 3, 4); ns++ {
+				for nd := 0; nd <= q(tier, 3, 4); nd++ {
+					for v := 0; v <= 6; v++ {
+						if v >= 3 && nd > 1 {
+							continue
+						}
+						out = append(out, cs("VH_C15", ns, nd, v))
+					}
+				}
+			}
+			return out
+		},
+		boundsText: map[string]string{
+			"quick":    "source length 0..3 (nil elements by fork, kind/FIFO/options/capacity symbolic), destination length 0..3 with spare backing capacity, destination capacity field none or any value in [nd+1, nd+ns+2]; destination given as Stack, alias, pointer to alias, read-only, zero Stack, foreign value, nil",
+			"thorough": "as quick with lengths 0..4",
+		},
+		outside: "src == dst (self-transfer; not in the quantifier); longer stacks",
+	})
 }
 
 var _ = fmt.Sprint
